@@ -16,7 +16,7 @@ Proof. intros []; cbn; tauto. Qed.
 Lemma all_formats_complete : forall f, In f all_formats.
 Proof. intros []; cbn; tauto. Qed.
 Lemma all_flows_complete : forall f, In f all_flows.
-Proof. intros [[|]| | |[|]| | | |]; cbn; tauto. Qed.
+Proof. intros [[|]| | |[|]| | | | |]; cbn; tauto. Qed.
 Lemma all_pops_complete : forall p, In p all_pops.
 Proof. intros [|[]|[]| |[]|[]| | |[]|[]]; cbn; tauto. Qed.
 Lemma all_views_complete : forall b, In b all_views.
@@ -111,7 +111,7 @@ Definition sweep_fresh : bool :=
         imp (negb (zerocopy o) && att_flow f)
           (match keep o t f b with
            | Fresh => true
-           | Table => (intern o && match f with FString true | FMapKeyStr => true | _ => false end)
+           | Table => (intern o && match f with FString true | FMapKeyStr | FIfaceBytesKey => true | _ => false end)
                       || match p with PSymDef _ | PSymRef _ => true | _ => false end
            | Static => len_is0 (len b) || match p with PJsonLit => true | _ => false end
            | _ => false
@@ -126,7 +126,7 @@ Lemma fresh_lemma : forall o t fm p f b,
   zerocopy o = false -> produce o t fm p = Some b -> att_flow f = true ->
   keep o t f b = Fresh
   \/ (keep o t f b = Table /\
-      ((intern o = true /\ (f = FString true \/ f = FMapKeyStr)) \/ (exists l, p = PSymDef l \/ p = PSymRef l)))
+      ((intern o = true /\ (f = FString true \/ f = FMapKeyStr \/ f = FIfaceBytesKey)) \/ (exists l, p = PSymDef l \/ p = PSymRef l)))
   \/ (keep o t f b = Static /\ (len_is0 (len b) = true \/ p = PJsonLit)).
 Proof.
   intros o t fm p f b Hz Hp Hf.
@@ -141,7 +141,7 @@ Proof.
   - right; left. split; [reflexivity|].
     apply orb_prop in H. destruct H as [H|H].
     + left. apply andb_prop in H. destruct H as [Hi Hm]. split; [exact Hi|].
-      destruct f as [[|]| | | | | | |]; try discriminate; auto.
+      destruct f as [[|]| | | | | | | |]; try discriminate; auto.
     + right. destruct p; try discriminate; eauto.
   - right; right. split; [reflexivity|].
     apply orb_prop in H. destruct H as [H|H]; [left; exact H|right].
